@@ -204,7 +204,10 @@ class Sym:
         raise PathAbort("concretisation: int(Sym) reached (unmodelled C boundary)")
 
     def __index__(self):
-        raise PathAbort("concretisation: Sym used as index")
+        ctx = _CTX
+        if ctx is None or ctx.mode != "sym" or not z3.is_int(self.t):
+            raise PathAbort("concretisation: Sym used as index")
+        return ctx.concretize_int(self)
 
     def __round__(self, ndigits=None):
         if ndigits is None or ndigits == 0:
@@ -771,6 +774,19 @@ class Ctx:
         known[ncond.get_id()] = not d
         self.scratch.setdefault("_keepalive", []).extend([cond, ncond])   # ids of collected terms are re-used
         return d
+
+    def concretize_int(self, x, limit=64):
+        """Fork over the feasible values of a symbolic integer (used where Python needs an index)."""
+        for _ in range(limit):
+            if self._check() != "sat":
+                raise _Infeasible()
+            v = self.solver.model().eval(x.t, model_completion=True)
+            if not z3.is_int_value(v):
+                raise PathAbort("cannot enumerate the values of a symbolic index")
+            v = v.as_long()
+            if self.branch(x.t == v):
+                return v
+        raise PathAbort("symbolic index with more than 64 feasible values")
 
     def fork2(self, can_true_fn, can_false_fn):
         """Generic two-way fork with externally decided feasibility (used by the regex algebra)."""
